@@ -962,6 +962,10 @@ class Machine:
             return Opaque(f"{base.slot}.{a}")
         if isinstance(base, Arr):
             if a == "shape":
+                if self.knobs.get("single_row"):
+                    # a batch of exactly one row: the (masked) array has 1 element iff the row is selected
+                    sel = getattr(base, "selected_by", True)
+                    return [Num(1) if sel is True else Num(0) if sel is False else Opaque("n")]
                 return [Opaque("n")]
             if a in ("sum", "copy", "min", "max", "tolist", "any", "all", "astype"):
                 return ("arrmethod", base, a)
@@ -1170,6 +1174,13 @@ class Machine:
                 for x, y in ((a, b), (b, a)):
                     if isinstance(x, Key) and isinstance(y, (Num, Param, Opaque)):
                         return Key(x.kind, x.base, clamped=True)
+                if (isinstance(a, Pos) or is_nan(a)) and (isinstance(b, Pos) or is_nan(b)):
+                    # Python's min/max: `b if b < a else a` (min), `b if b > a else a` (max); comparisons with NaN are False
+                    t = self.cmp(b, ast.Lt() if name == "min" else ast.Gt(), a)
+                    if t is True:
+                        return b
+                    if t is False:
+                        return a
                 return Opaque(name)
             return Opaque(name)
         if name in ("all", "any"):
@@ -1255,6 +1266,8 @@ class Machine:
             r = Arr(arr.row, "fresh", arr.name)
             return r
         if m in ("min", "max"):
+            if self.knobs.get("single_row") and getattr(arr, "selected_by", True) is True:
+                return arr.row         # the extremum of a one-row batch is that row
             return Opaque(m)
         if m in ("any", "all"):
             t = self.truth(arr.row)
